@@ -66,9 +66,12 @@ NextArith == \/ \E cmb \in DefinedCombos : \E a \in Thin(cmb[2]), b \in Thin(cmb
              \/ \E k \in {"num", "dv", "param", "lin", "quad", "poly", "func"} : \E a \in Operand(k) :
                    vec' = [ev |-> "arith", in |-> [op |-> "neg", a |-> a, b |-> DummyB]]
 \* same-kind and scalar products on the richer operand families
-NextArithDeep == \E cmb \in { c \in DefinedCombos : c[2] = c[3] \/ c[2] = "num" \/ c[3] = "num" \/ c[2] = "func" } :
+NextArithDeep == \/ \E cmb \in { c \in DefinedCombos : c[2] = c[3] \/ c[2] = "num" \/ c[3] = "num" \/ c[2] = "func" } :
                    \E a \in Operand(cmb[2]), b \in Thin(cmb[3]) :
                      vec' = [ev |-> "arith", in |-> [op |-> cmb[1], a |-> a, b |-> b]]
+                 \* an operand combined with ITSELF (squares, x + x, x - x) on the rich families, un-normalised forms included
+                 \/ \E cmb \in { c \in DefinedCombos : c[2] = c[3] } : \E a \in Operand(cmb[2]) :
+                     vec' = [ev |-> "arith", in |-> [op |-> cmb[1], a |-> a, b |-> a]]
 NextFnInfo == \E f \in Msgs : vec' = [ev |-> "fn_info", in |-> [f |-> f]]
 \* ---- growth: Display, constructors ---------------------------------------------------------------------
 FmtCs == {R(-1), R(1), R(2), R(-3), <<1,2>>, <<-5,4>>, <<3,8>>, R(0)}
